@@ -19,6 +19,26 @@ CLAIMED = {
         "words, sentinels in dead slots and process crashes (unsafe-precondition aborts are attributed to the stimulus); "
         "UB without observable effect is out of reach. Capacities above 4 are covered by random histories, not exhaustively.",
    design="5/C06"),
+ "C09": dict(
+   text="Graph.tla models petgraph's DfsPostOrder on the reversed graph plus the processor loop (layer 2) and the relational property (processed set = "
+        "ancestors of the output + output, once each, topological when acyclic, inputs = one per incoming edge from a different node showing the "
+        "neighbour's current buffers, never its own; sources/sinks = live nodes without in/out edges). TLC checks that layer 2 refines layer 1 on all "
+        "multigraphs on <= 2 nodes (multiplicity <= 2) and all digraphs with self-loops on 3 nodes, every live subset and output node (thorough: 3-node "
+        "multigraphs and 4-node digraphs), and emits each graph; the harness builds it as Graph and StableGraph (with and without vacant slots), processes "
+        "two differently shaped graphs with one Processor using instrumented nodes that stamp buffers, plus random graphs up to 12 nodes; TLC validates "
+        "invocation order, per-invocation input lists and stamps, final buffers, and the sources()/sinks() lists.",
+   note="Trusted: TLC, harness loggers and instrumented nodes. Exhaustive only for the stated node counts; larger graphs randomly. Traversal order is "
+        "left free (any order satisfying the property is accepted).",
+   design="5/C09"),
+ "C16": dict(
+   text="Nodes.tla models Sum, SumBuffers, Pass, Delay (over RingBuffer.tla's Fixed, state across calls), the signal node (position across calls), "
+        "GraphNode and the wrappers as identity. TLC explores inputs 0..3 x buffers per node 0..3 (matching or not) x 3 consecutive calls at buffer "
+        "length 3 and emits every case; the harness replays them at the real Buffer::LEN = 64 through every wrapper (&mut, Box, BoxedNode, BoxedNodeSend, "
+        "dyn Fn/FnMut, fn pointers, nested GraphNode), with random integer contents, per-channel delay lengths and 50-call runs; TLC validates the "
+        "output buffers after every call exactly.",
+   note="Trusted: TLC, harness loggers. Buffers hold small integers (exact in f32). Delay rings and boxed signals are the crates.io 0.11.0 copies that "
+        "dasp_graph links at the pinned commit (DESIGN section 2).",
+   design="5/C16"),
  "C12": dict(
    text="Fork.tla models the fork at two layers (ForkShared as coded over RingBuffer.tla's Bounded; per-branch positions). TLC explores "
         "the whole tree of branch schedules (length 9 quick / 11 thorough, capacity 1..3 / 1..4, every start offset, with re-splits, lead <= capacity) "
